@@ -23,7 +23,7 @@
       granularity of harness events, where every callback runs before the next event.
 -/
 import NngModel.Proto.Base
-import NngModel.Generated.Consts
+import NngModel.Generated.C08
 namespace Nng.Pair0
 open Nng Nng.Proto
 
